@@ -577,6 +577,11 @@ func RunCrashScenario(sc *Scenario) (vd *Verdict) {
 			r.atBackup = nil
 			r.backupMgr = nil
 			r.grabbed = map[string]*grabbedDS{}
+			// a new store numbers its datasets from the start again
+			r.deletedIDs = map[uint32]bool{}
+			r.seenDsIDs = map[uint32]string{}
+			r.incarnation = map[string]int{}
+			r.settings = map[string]dsSettings{}
 			r.fp = FilesFingerprint(r.H.Dir)
 			r.walEpochStart = i + 1
 			r.Stats["store_resets"]++
